@@ -108,19 +108,19 @@ PROPS = {
     },
     "C07": {
         "level": "fault_enumeration",
-        "technique": "pause-and-probe plus crash-point enumeration under ptrace: at every state-changing system call of a node's life another process queries the liveness verdict while the victim is stopped (alive) and again after SIGKILL; cleanup exclusivity: every single-preemption interleaving (system-call / libc-call granularity) of two cleaner processes, of a cleaner that is killed, and of two cleaner threads of one process",
+        "technique": "pause-and-probe plus crash-point enumeration under ptrace: at every state-changing system call of a node's life another process queries the liveness verdict while the victim is stopped (alive) and again after SIGKILL; cleanup exclusivity: every single-preemption interleaving (system-call / libc-call granularity) of two cleaner processes, of a cleaner that is killed, and of two cleaner threads of one process; plus a cleaner that is refused because another process holds the owner lock of the dead node",
         "legs": [{"ws": "seq", "bin": "ptx", "args": ["--prop", "C07"]}],
         "rule": "see coverage.legs[0].rule",
         "assumptions": [
             "the probe (Node::list in another process) is one atomic block relative to the stopped victim: interleavings inside the monitor's own multi-step decision are not enumerated",
             "victim and survivor run as an unprivileged user; creation_timeout configured to 500 ms",
-            "concurrent cleaners (2..4) are not enumerated by this leg",
+            "cleaner races are enumerated for two cleaners (processes or threads) with one preemption; three or more concurrent cleaners are not enumerated",
         ],
         "design_ref": "DESIGN.md §3.2, §4 C07",
         "level_text": "At every state-changing system call of node creation, service/port creation, traffic and shutdown of a victim process, a second process "
                       "lists the nodes while the victim is stopped there (it must never be reported dead) and again after the victim was killed there (within "
-                      "the creation timeout it must be reported dead or absent, never alive/undefined for ever, and a dead node must be collectable). Cleanup exclusivity is additionally enumerated for two cleaner THREADS of one process (thread A held before each libc call of its cleanup while thread B runs its attempt): at most one reports success.",
-        "level_note": "trusted: ptrace stepping; not covered: interleavings inside the monitor's decision tree, 2..4 concurrent cleaners, a cleaner that dies itself (planned legs, see DESIGN.md §7)",
+                      "the creation timeout it must be reported dead or absent, never alive/undefined for ever, and a dead node must be collectable). Cleanup exclusivity is additionally enumerated for two cleaner THREADS of one process (thread A held before each libc call of its cleanup while thread B runs its attempt): at most one reports success. A cleaner that is refused while another process holds the owner lock must leave the three monitoring files of the dead node untouched, and a later cleaner must still collect the node.",
+        "level_note": "trusted: ptrace stepping; not covered: interleavings inside the monitor's decision tree, three or more concurrent cleaners, more than one preemption between two cleaners",
     },
     "C13": {
         "level": "model_checking",
